@@ -246,6 +246,7 @@ class Module:
         self.functions: Dict[str, FuncInfo] = {}
         self.assigns: Dict[str, ast.AST] = {}
         self.imports: Dict[str, Tuple[str, Optional[str]]] = {}  # local -> (module, name|None)
+        self.absorbed_class_stores = set()
         for st in self.tree.body:
             self._index(st)
         # function-local imports (used in the repo to break cycles) are visible for resolution too
@@ -279,6 +280,15 @@ class Module:
             self.assigns[st.targets[0].id] = st.value
         elif isinstance(st, ast.AnnAssign) and isinstance(st.target, ast.Name) and st.value is not None:
             self.assigns[st.target.id] = st.value
+        elif isinstance(st, (ast.Assign, ast.AnnAssign)) and getattr(st, "value", None) is not None \
+                and isinstance((st.targets[0] if isinstance(st, ast.Assign) and len(st.targets) == 1 else getattr(st, "target", None)), ast.Attribute) \
+                and isinstance((st.targets[0] if isinstance(st, ast.Assign) else st.target).value, ast.Name) \
+                and (st.targets[0] if isinstance(st, ast.Assign) else st.target).value.id in self.classes:
+            # `Class.ATTR = <expr>` at module level, after the class statement: the class attribute is what was bound last (a table
+            # that needs the finished class to be computed); evaluated in the module's scope, where the class name is visible
+            t = st.targets[0] if isinstance(st, ast.Assign) else st.target
+            self.classes[t.value.id].assigns[t.attr] = st.value
+            self.absorbed_class_stores.add(id(t))
         elif isinstance(st, (ast.Import, ast.ImportFrom)):
             self._imp(st)
         elif isinstance(st, (ast.If, ast.Try)):
@@ -312,6 +322,31 @@ class Repo:
         self._cache: Dict[Tuple, Any] = {}
         self._inprogress: set = set()
         self.fold_stats = {"folded": 0, "unfoldable": 0}
+        # class attributes (re)bound while a module is IMPORTED by anything but a plain top-level `Class.ATTR = expr` of the class's
+        # own module (which Module._index folds into the class): inside an if / loop at module level, from another module, through
+        # setattr.  The class-level initialiser then is not what the attribute holds: such an attribute never folds (fail closed).
+        self.import_time_class_stores: Dict[str, set] = {}
+        class_names = {c for m in self.modules.values() for c in m.classes}
+
+        def scan(m, stmts):
+            for st in stmts:
+                if isinstance(st, (ast.FunctionDef, ast.AsyncFunctionDef, ast.ClassDef)):
+                    continue
+                for n in ast.walk(st):
+                    if isinstance(n, (ast.FunctionDef, ast.AsyncFunctionDef, ast.ClassDef, ast.Lambda)):
+                        continue
+                    tgt = None
+                    if isinstance(n, ast.Attribute) and isinstance(n.ctx, (ast.Store, ast.Del)) and isinstance(n.value, ast.Name) and id(n) not in m.absorbed_class_stores:
+                        tgt = (n.value.id, n.attr)
+                    elif isinstance(n, ast.Call) and isinstance(n.func, ast.Name) and n.func.id in ("setattr", "delattr") and len(n.args) >= 2 and isinstance(n.args[0], ast.Name):
+                        tgt = (n.args[0].id, n.args[1].value if isinstance(n.args[1], ast.Constant) and isinstance(n.args[1].value, str) else "*")
+                    if tgt is None:
+                        continue
+                    cname = tgt[0] if tgt[0] in m.classes else (m.imports.get(tgt[0], (None, None))[1] or "")
+                    if cname in class_names:
+                        self.import_time_class_stores.setdefault(cname, set()).add(tgt[1])
+        for m in self.modules.values():
+            scan(m, m.tree.body)
 
     def add_external_module(self, name: str, relpath: str) -> Module:
         """a dependency file read as DATA (parsed, never imported): searched under the repo root and in site-packages"""
@@ -493,6 +528,10 @@ class Repo:
     def class_const(self, ci: ClassInfo, attr: str):
         """Folded value of class-level attribute `attr` (searching the MRO)."""
         owner = self.class_attr_owner(ci, attr)
+        for c_ in self.mro(ci):
+            dyn = self.import_time_class_stores.get(c_.name, ())
+            if attr in dyn or "*" in dyn:
+                raise Unfoldable(f"{c_.name}.{attr} is (re)bound at import time outside the class statement — its value is not the class-level initialiser")
         if owner is None:
             raise Unfoldable(f"{ci.name}.{attr} not a class-level assignment")
         key = ("cc", owner.qualname, attr)
